@@ -4,6 +4,7 @@ import (
 	"fmt"
 	"go/token"
 	"go/types"
+	"os"
 	"regexp"
 	"runtime"
 	"sort"
@@ -89,7 +90,7 @@ func (c *Ctx) pathSignature(t *Trace, pkgPath string, stopAt func(e *Event) bool
 			final, order = map[string]string{}, nil
 			parts = append(parts, "call "+norm(n)+"("+strings.Join(as, ", ")+")")
 		case EvBranch:
-			guards = append(guards, fmt.Sprintf("%s = %v", norm(e.Cond.Key()), e.Taken))
+			guards = append(guards, norm(canonGuard(e.Cond, e.Taken)))
 		case EvPanic:
 			parts = append(parts, "panic "+norm(e.Args[0].Key()))
 		case EvReturn:
@@ -164,6 +165,16 @@ func runC11(c *Ctx) {
 		return e.Callee != nil && recvNamedName(e.Callee) == "Buffer" && len(e.Callee.Blocks) > 0 && !c.pureModuleFn(e.Callee)
 	}
 	cfg := TraceConfig{Inline: noInl, Havoc: bufMethodWrites}
+	deepCfg := TraceConfig{Havoc: bufMethodWrites, Inline: func(callee *ssa.Function, depth int) bool {
+		if callee == nil || callee.Pkg == nil || depth > 4 {
+			return false
+		}
+		if pp := callee.Pkg.Pkg.Path(); pp != "bytes" && pp != texPkg.PkgPath {
+			return false
+		}
+		// the allocation helpers stay opaque: the capacity policy is excluded by the property
+		return callee.Name() != "makeSlice" && callee.Name() != "growSlice"
+	}}
 	sigSet := func(fn *ssa.Function, pkgPath string, filter func(t *Trace) bool, stopAt func(e *Event) bool) map[string]bool {
 		traces, complete := c.Trace(fn, cfg)
 		if !complete {
@@ -266,6 +277,38 @@ func runC11(c *Ctx) {
 		if len(onlyT) == 0 && len(onlyS) == 0 {
 			c.holds("C11.sibling", cons, fn.Pos(), fmt.Sprintf("%d path signatures equal to bytes.Buffer.%s%s", len(ts), m.Name(), dev))
 			continue
+		}
+		// second opinion: the same comparison with the buffer's own helpers expanded on both sides, so that code
+		// moved between a method and its helpers (or a helper introduced or dissolved) compares equal
+		saved := cfg
+		cfg = deepCfg
+		// with grow expanded into its callers its reallocating branch (excluded by the property) appears in every method
+		deepFilter := func(t *Trace) bool { return isRealloc(t) && (filter == nil || filter(t)) }
+		dt, ds := sigSet(fn, texPkg.PkgPath, deepFilter, stopAt), sigSet(sf, "bytes", deepFilter, stopAt)
+		cfg = saved
+		if dt != nil && ds != nil && len(dt) == len(ds) {
+			same := true
+			for k := range dt {
+				if !ds[k] {
+					same = false
+				}
+			}
+			if same {
+				c.holds("C11.sibling", cons, fn.Pos(), fmt.Sprintf("%d path signatures equal to bytes.Buffer.%s with the own helpers expanded%s", len(dt), m.Name(), dev))
+				continue
+			}
+		}
+		if os.Getenv("NEPDEBUG_C11") != "" {
+			for k := range dt {
+				if !ds[k] {
+					fmt.Println("DEEP tex only:\n" + k)
+				}
+			}
+			for k := range ds {
+				if !dt[k] {
+					fmt.Println("DEEP bytes only:\n" + k)
+				}
+			}
 		}
 		var w []string
 		for _, k := range onlyT {
@@ -455,4 +498,60 @@ func runC11(c *Ctx) {
 		c.check(ok, "C11.additions", "NewSizedBuffer", fn.Pos(), "make(size) then Reset", "NewSizedBuffer does not allocate `size` bytes and reset to an empty buffer")
 	}
 	_ = token.ADD
+}
+
+// canonGuard renders a branch atom in a spelling-independent form without changing its meaning under
+// wrap-around arithmetic: the operands stay on their sides (n <= cap-l and l+n <= cap are different atoms:
+// the second one overflows), only the direction is normalised (x > y is y < x), a strict comparison with a
+// small constant becomes the non-strict one (off > 0 is off >= 1) and the side taken is folded into the operator.
+func canonGuard(cond *Sym, taken bool) string {
+	for cond.Kind == KUn && cond.Op == token.NOT {
+		cond, taken = cond.Args[0], !taken
+	}
+	if cond.Kind == KBin && len(cond.Args) == 2 {
+		op := cond.Op
+		switch op {
+		case token.EQL, token.NEQ, token.LSS, token.LEQ, token.GTR, token.GEQ:
+			if !taken {
+				op = negOp(op)
+			}
+			x, y := cond.Args[0], cond.Args[1]
+			_, _, xi := typeRange(x.Typ, "amd64")
+			_, _, yi := typeRange(y.Typ, "amd64")
+			str := func(v *Sym) string {
+				if _, _, isInt := typeRange(v.Typ, "amd64"); isInt && v.Kind != KConst {
+					return lf(v).String()
+				}
+				return v.Key()
+			}
+			if xi && yi {
+				// constant on the right
+				if _, isC := x.intConst(); isC {
+					if _, yC := y.intConst(); !yC {
+						x, y, op = y, x, swapOp(op)
+					}
+				}
+				if k, isC := y.intConst(); isC && k > -1<<30 && k < 1<<30 {
+					switch op {
+					case token.GTR:
+						return fmt.Sprintf("%s >= %d", str(x), k+1)
+					case token.LSS:
+						return fmt.Sprintf("%s <= %d", str(x), k-1)
+					}
+					return fmt.Sprintf("%s %s %d", str(x), op, k)
+				}
+			}
+			xs, ys := str(x), str(y)
+			switch op {
+			case token.GTR, token.GEQ:
+				xs, ys, op = ys, xs, swapOp(op)
+			case token.EQL, token.NEQ:
+				if ys < xs {
+					xs, ys = ys, xs
+				}
+			}
+			return fmt.Sprintf("%s %s %s", xs, op, ys)
+		}
+	}
+	return fmt.Sprintf("%s = %v", cond.Key(), taken)
 }
